@@ -656,6 +656,23 @@ class Exec(object):
             return VList(z3.Length(v.t), get=lambda i: VStr(ex.str_piece(ex.cur_state, v.t, i, z3.IntVal(1))), et=STR)
         if isinstance(v, str):
             return VList.from_py(list(v))
+        if isinstance(v, sym.VMap) and v.level() < v.depth:
+            # iteration over the keys of a (nested) dict with opaque keys: some duplicate-free enumeration of exactly
+            # the keys present at this level -- nothing is assumed about the order
+            self.trusted.add("iteration over a dict: an unknown duplicate-free enumeration of exactly its keys")
+            n = z3.Int(fresh_name("dict_n"))
+            el = z3.Function(fresh_name("dict_key"), IntS, sym.KeyS)
+            at = z3.Function(fresh_name("dict_at"), sym.KeyS, IntS)
+            i, k = z3.Int(fresh_name("di")), z3.Const(fresh_name("dk"), sym.KeyS)
+            pres = lambda key: sym._sel(v.pres[v.level()], list(v.prefix) + [key])
+            st.assume(n >= 0)
+            st.define(z3.ForAll([i], z3.Implies(z3.And(0 <= i, i < n), z3.And(pres(el(i)), at(el(i)) == i)),
+                                patterns=[el(i)]))
+            st.define(z3.ForAll([k], z3.Implies(pres(k), z3.And(0 <= at(k), at(k) < n, el(at(k)) == k)),
+                                patterns=[at(k)]))
+            lst = VList(n, get=lambda j: sym.VKey(el(j)), et=None)
+            lst.key_index = at
+            return lst
         raise Unsupported("iteration over %r" % (v,))
 
     # ---------------- assignment ----------------
